@@ -65,6 +65,15 @@ pub fn rule(prop: &str) -> String {
         "C07" => "inbound profile: subscribes, SUBACK early/late, server PUBLISH with registered/unknown/absent identifiers, stream opens/drops, unsubscribes; non-trivial = message injected before SUBACK or before stream() or >=2 streams live; distinct = hash of (per-stream expected item list shape, timing class)".into(),
         "C08" => "inbound profile with QoS 0/1/2, DUP, PUBREL for known/unknown ids, writer back-pressure; non-trivial = >=1 inbound QoS>0 PUBLISH or PUBREL consumed; distinct = sequence of (kind, subscription-id state)".into(),
         "C09" => "inbound profile with QoS 2 re-deliveries before PUBREL and identifier reuse after it; non-trivial = >=1 re-delivery of an unreleased identifier; distinct = sequence over {first, re-delivery, release} per identifier".into(),
+        "C11" => "runs that start 0-30 allocations before the 65535 wrap (conformant ops, 1-4 clones, varying numbers outstanding) and, every 400th run, one long history of 66k-72k (thorough: 70k-200k) identifier-consuming operations across the real wrap; non-trivial = the wrap was crossed; distinct = identifier sequence on the wire / (ops, wraps, max outstanding)".into(),
+        "C12" => "M in {absent,1,2,3,around 128,around 16384,65-70k,2^32-1,12..90} x requests padded to L in {M-1,M,M+1}; twin run without M gives L; non-trivial = |L-M| <= 1 or a refusal; distinct = (request kind, sign of L-M, M, L)".into(),
+        "C14" => "conformant/inbound histories, context dropped after a random prefix, then all streams opened and new operations started; non-trivial = operations or streams were pending at the drop; distinct = (pending op kinds, streams with buffered items, wire and inbound lengths)".into(),
+        "C15" => "conformant(+inbound) workload with CancelOp/DropStream at random points, late acknowledgements still delivered, quota probe; non-trivial = an acknowledgement arrived after its operation was cancelled or a stream was dropped; distinct = (cancelled kinds x late ack counts, dropped streams)".into(),
+        "C16" => "every wake-base scenario executed wake-only / sweep / spurious; non-trivial = the variant executions performed extra polls; distinct = (interleaving hash, extra polls)".into(),
+        "C03" => "seeded framing scenarios (1-byte / small / held chunks, gates, scribbling reader) + systematic sweeps (all compositions of short streams, every cut, 512/1024 alignments, fixed chunk sizes, 3/4-byte remaining lengths); non-trivial = at least one read ended strictly inside a packet; distinct = (packet length sequence, cut offsets relative to packet start and to 512)".into(),
+        "C04" => "hostile broker inside conformant workloads + systematic truncation / wrong-phase / fault-offset sweeps; non-trivial = hostile bytes were consumed or a transport fault fired; distinct = (hostile inputs' lengths and offsets, phase, faults seen, wire length)".into(),
+        "C01" => "random option subsets with boundary values through the public API, 1-8 requests per run from 1-3 handles, partial/pending writes; non-trivial = a client packet on the wire; distinct = (packet type, set of property ids present incl. will, flag/QoS/filter-count bits, size class by remaining-length width)".into(),
+        "C02" => "reference-encoded server packets with random legal property subsets in shuffled order, short forms, boundary lengths, chunked reads; non-trivial = packet consumed by the client; distinct = (packet type, property id sequence, reason/QoS/size bits, short form, size class)".into(),
         "C10" => "conformant-ops with Receive Maximum in {1..12, absent}, bursts, all reason codes, then a quiescent probe submitting free+1 publishes; non-trivial = a publish was attempted with the window full or a failing completion occurred; distinct = (R, history of completion kinds, refusals)".into(),
         "C13" => "termination profile: every terminating cause at random session states; non-trivial = cause fired while state was non-idle; distinct = (cause, DISCONNECT reason, session state class)".into(),
         _ => "see DESIGN.md".into(),
@@ -157,6 +166,16 @@ pub fn generate(prop: &str, _tier: Tier, rng: &mut Rng, _idx: u64) -> Case {
         "C03" => crate::profiles::framing(rng),
         "C04" => crate::hostile::hostile_case(rng),
         "C16" => crate::profiles::wake_base(rng),
+        "C11" => {
+            // every 400th run is a long history across the real wrap
+            if _idx % 400 == 0 {
+                let ops = if _tier == Tier::Thorough { 70_000 + rng.range(0, 130_000) as u32 } else { 66_000 + rng.range(0, 6_000) as u32 };
+                let ops = std::env::var("POSIM_IDOPS").ok().and_then(|s| s.parse().ok()).unwrap_or(ops);
+                crate::profiles::ids_long(rng, ops)
+            } else {
+                crate::profiles::ids_near_wrap(rng)
+            }
+        }
         "C12" => crate::profiles::maxpacket(rng),
         "C13" => crate::profiles::termination(rng),
         "C14" => crate::profiles::teardown(rng),
@@ -383,6 +402,18 @@ pub fn judge(prop: &str, sc: &Scenario, aux: Option<&Scenario>) -> Judged {
             if !raw.is_empty() || faults.iter().any(|f| f.0 || f.1) {
                 let first_bytes: Vec<u8> = a.inbound.iter().filter(|i| i.p.pkt.is_none()).map(|i| (i.p.bytes_len % 251) as u8).collect();
                 j.nontrivial.push(fnv_of(&(raw, phase_run, faults, first_bytes, a.wire.len())));
+            }
+        }
+        "C11" => {
+            viols.extend(oracle::c11(&a));
+            let crossed = a.wire.windows(2).any(|w| matches!((w[0].pkt.pid(), w[1].pkt.pid()), (Some(x), Some(y)) if x > 60_000 && y < 1_000));
+            if let Some((ops, wraps, maxo)) = a.id_history {
+                if wraps > 0 {
+                    j.nontrivial.push(fnv_of(&(ops, wraps, maxo)));
+                }
+            } else if crossed {
+                let ids: Vec<u16> = a.wire.iter().filter_map(|w| w.pkt.pid()).collect();
+                j.nontrivial.push(fnv_of(&(ids, a.inbound.len())));
             }
         }
         "C12" => {
